@@ -63,6 +63,26 @@ Theorem outlet_pixel_spec : forall sds subncol cs (nrow : nat) ncol,
 Proof. exact UpscaleSpec.out_walk_spec. Qed.
 Print Assumptions outlet_pixel_spec.
 
+(* every outlet pixel is a DISTINCT fine cell: the exit / representative pixels of dmm and eam, and the outlet pixels of
+   eam_plus (ihu step 1), of two different coarse cells differ *)
+From PF Require Import UpscaleDistinct.
+Theorem rep_pixels_distinct : forall sds upa subncol cs nrow ncol sel idx idx',
+  let rep := repcell sds upa subncol cs nrow ncol sel in
+  idx < nrow * ncol -> idx' < nrow * ncol -> idx <> idx' ->
+  nth idx rep (length sds) < length sds -> nth idx' rep (length sds) < length sds ->
+  nth idx rep (length sds) <> nth idx' rep (length sds).
+Proof. exact UpscaleDistinct.rep_pixels_distinct. Qed.
+Print Assumptions rep_pixels_distinct.
+Theorem outlet_pixels_distinct : forall sds upa subncol cs nrow ncol sel idx idx',
+  (forall t, t < length sds -> sd sds t < length sds -> sd sds (sd sds t) < length sds) ->
+  let rep := repcell sds upa subncol cs nrow ncol sel in
+  let out := ihu_outlets sds subncol cs nrow ncol rep in
+  idx < nrow * ncol -> idx' < nrow * ncol -> idx <> idx' ->
+  nth idx out (length sds) < length sds -> nth idx' out (length sds) < length sds ->
+  nth idx out (length sds) <> nth idx' out (length sds).
+Proof. exact UpscaleDistinct.outlet_pixels_distinct. Qed.
+Print Assumptions outlet_pixels_distinct.
+
 (* the eam_plus link: derived from the next outlet pixel / pit when its cell is an 8-neighbour, else from an
    effective-area pixel (PARTIAL: that the latter's cell is an 8-neighbour is geometric and only checked on outputs) *)
 Theorem eam_plus_link_partial : forall sds subncol cs ncol,
